@@ -14,9 +14,9 @@ def sh(cmd, **k):
 env = dict(os.environ, PYTHONPATH=os.path.join(wt, 'src'), NUMBA_NUM_THREADS='4')
 # demo with the change (worktree has it applied)
 r_with = sh('/venv/bin/python %s/demo.py' % dst, env=env, cwd='/tmp', timeout=1800)
-sh('git -C %s diff -- src > /tmp/seedtest_change.diff && git -C %s checkout -- src' % (wt, wt))     # (not git stash: the stash is shared between worktrees)
+sh('git -C %s diff -- src > /tmp/seedtest_change_%s.diff && git -C %s checkout -- src' % (wt, name, wt))     # (not git stash: the stash is shared between worktrees)
 r_without = sh('/venv/bin/python %s/demo.py' % dst, env=env, cwd='/tmp', timeout=1800)
-sh('git -C %s apply /tmp/seedtest_change.diff' % wt)
+sh('git -C %s apply /tmp/seedtest_change_%s.diff' % (wt, name))
 print('demo with change: rc=%d | without: rc=%d' % (r_with.returncode, r_without.returncode))
 print('  with:', (r_with.stdout + r_with.stderr).strip()[-200:])
 # does the patch apply to /repo?
